@@ -138,6 +138,18 @@ def strip_heritage(x):
   return x
 
 
+def span_texts(x):
+  """the tree with every span kept as the plain text it stands for (full_text of rules, expression_heritage of
+  nodes): what a span *says* must not depend on the parser"""
+  if isinstance(x, dict):
+    return {k: span_texts(v) for k, v in x.items()}
+  if isinstance(x, list):
+    return [span_texts(v) for v in x]
+  if isinstance(x, str):
+    return str(x)
+  return x
+
+
 def span_errors(x, out, path=''):
   """Every heritage-aware string must literally be the text at its span of the statement it belongs to."""
   HAS = R.parse.HeritageAwareString
@@ -166,7 +178,8 @@ def parse_job(job):
       return {'error': R.classify(e), 'exc': type(e).__name__, 'msg': str(e)[:200]}
   spans = []
   span_errors(rules, spans)
-  return {'ok': json.dumps(strip_heritage(rules), sort_keys=True, default=str), 'spans': spans[:5]}
+  return {'ok': json.dumps(strip_heritage(rules), sort_keys=True, default=str), 'spans': spans[:5],
+          'texts': json.dumps(span_texts(rules), sort_keys=True, default=str)}
 
 
 def first_diff(a, b):
